@@ -89,9 +89,9 @@ PROPS = {
             'lens': [(['q.nx', 'z.hiIn', 'z.hiOut', 'z.closed', 'z.streams.by'], ANY), (['r', 'o', 'e'], S('call:hdr', 'call:push', 'call:next', 'frame:HEADERS', 'frame:PP', 'frame:PRIO'))]},
     'C10': {'scenarios': scen('SetC SetS LifeS PushS', ['P_C10_OutboundWithinPeerLimit']),
             'lens': [(['r'], S('call:oin', 'call:oout')), (['r', 'o', 'e'], S('call:hdr', 'frame:HEADERS')), (['z.streams.st', 'z.streams', 'z.rs', 'z.ls'], ANY)]},
-    'C11': {'scenarios': scen('SetC SetS', ['P_C11_PeerSettingsAckedOnce']),
+    'C11': {'scenarios': scen('SetC SetS', ['P_C11_PeerSettingsAckedOnce']) + [only('thorough', 'MC_SetEnumS', 3, ['P_C11_PeerSettingsAckedOnce'])],
             'lens': [(['r', 'o', 'e', 'z.ls', 'z.rs', 'q.mof', 'q.mif', 'z.hdrCap'], S('call:set', 'frame:SET')), (['z.ls', 'z.rs'], ANY)]},
-    'C12': {'scenarios': scen('SetS SetC CloseS PushS', ['P_C12_SettingsValidation']),
+    'C12': {'scenarios': scen('SetS SetC CloseS PushS', ['P_C12_SettingsValidation']) + [sc('MC_SetEnumS', 2, 3, ['P_C12_SettingsValidation'])],
             'lens': [(['r', 'o', 'e', 'q.lw', 'q.rw', 'z.streams.ow', 'z.streams.iw', 'z.ow'], S('call:set', 'frame:SET'))]},
     'C13': {'scenarios': scen('Pair1 HdrOutC HdrOutS PushS', ['P_C13_CleanSendsDecode']),
             'lens': [(['o', 'r'], S('call:hdr', 'call:push')), (['r', 'e'], S('dlv')), (['z.hp'], ANY)]},
